@@ -37,6 +37,11 @@ def configs(tier, seed):
             T2 = dict(T, disp=2)
             out.append({"name": "%s-cuts+reorder-any-r2-c2-disp2" % main_dir, "harness": "segmentation", "main": main_dir, "transform": "cuts+reorder", "isn": "any",
                         "mode": "real", "nrec": 2, "ncuts": 2, **T2})
+        # four segments, one of them captured behind two later ones (record lengths pinned to keep the plan space small)
+        for main_dir in ("server", "client"):
+            T3 = dict(T, disp=2, cuts=3)
+            out.append({"name": "%s-cuts+reorder-any-r2-c3-disp2-len2" % main_dir, "harness": "segmentation", "main": main_dir, "transform": "cuts+reorder", "isn": "any",
+                        "mode": "real", "nrec": 2, "ncuts": 3, "fixed": {"len0": 2, "len1": 2, "move_dist": 2}, **T3})
     # the whole program (main.run -> Session -> builder) on connections whose every TCP segment carries s bytes: single bytes, records
     # spanning many segments, a record's last byte alone in a segment
     from tlv.harness import c01
@@ -84,6 +89,11 @@ class Pkt:
 def _plan(cfg, choose):
     """Everything structural is chosen through `choose(name, options)` (solver in symbolic mode, recorded inputs in replay)."""
     R, P = cfg["R"], cfg["P"]
+    if cfg.get("fixed"):
+        inner, fixed = choose, cfg["fixed"]
+
+        def choose(name, options):          # noqa: some structural choices of this configuration are pinned
+            return inner(name, [fixed[name]] if name in fixed and fixed[name] in options else options)
     nrec = choose("nrec", [cfg["nrec"]] if "nrec" in cfg else list(range(1, R + 1)))
     lens = [choose("len%d" % i, list(range(0, P + 1))) for i in range(nrec)]
     total = sum(5 + n for n in lens)
